@@ -80,6 +80,9 @@ type Result struct {
 
 var props = map[string]*Prop{}
 
+// caseOverride (-n) replaces the tier's number of generated cases when positive.
+var caseOverride int
+
 func register(p *Prop) { props[p.ID] = p }
 
 // safeExec runs the implementation under recover; a panic is an observation.
@@ -284,6 +287,9 @@ func runProp(p *Prop, tier string, seed int64, driver, verifDir string, mult int
 		n = p.ThoroughN
 	}
 	n *= mult
+	if caseOverride > 0 {
+		n = caseOverride
+	}
 	// several derived seeds so that one run covers more than one PRNG stream
 	chunks := 4
 	for c := 0; c < chunks; c++ {
